@@ -20,7 +20,9 @@ import (
 type tidKey struct{}
 
 // withTid tags the context of one in-flight request; every context the handler derives from it carries the tag.
-func withTid(ctx context.Context, tid int) context.Context { return context.WithValue(ctx, tidKey{}, tid) }
+func withTid(ctx context.Context, tid int) context.Context {
+	return context.WithValue(ctx, tidKey{}, tid)
+}
 
 type pendingCall struct {
 	tid   int
